@@ -118,6 +118,17 @@ def explore(ctx, depth):
         a = [rng.randrange(37) for _ in range(rng.randint(0, 8))]
         b = [rng.randrange(37) for _ in range(rng.randint(0, 6))]
         add(rng.choice(kinds[:3]), a, rng.choice(kinds[:3]), b, rng.random() < 0.3)
+    # selections that are already "expanded": a category's whole subtree from the documented tree, with and without the category itself, without
+    # one inner category, the leaves together with the root (round 6, C11_r6_1: a fast path for expanded selections tested `leaves` for `nodes`)
+    sn = t['spec_nodes']
+    for i in range(37):
+        sub = sorted(set(sn[i]))
+        if not sub:
+            continue
+        inner = [j for j in sub if sn[j]]
+        for a in ([i] + sub, sub, [i] + sorted(set(t['spec_leaves'][i])), [j for j in [i] + sub if not inner or j != inner[0]], sub + sub):
+            add(rng.choice(kinds[:3]), a, 'none', [], True)
+            add(rng.choice(kinds[:3]), a, rng.choice(kinds[:3]), [], False)
     # long lists and tuples with many repetitions (longer than the enumeration itself)
     for _ in range(20 if depth == 'quick' else 100):
         base = [rng.randrange(37) for _ in range(rng.randint(1, 4))]
@@ -148,6 +159,40 @@ def explore(ctx, depth):
             spec = [{'ok': b} for b in r['spec']] if isinstance(r['spec'], list) else [{'err': 'ValueError'}] * 37
             ctx.check(inp, impl, model, spec, nontrivial=nontrivial,
                       what='match is not "the category or one of its descendants is selected"')
+
+    # ---- a selection the library handed out, edited in place by the caller and handed back as `include`: it means what it now contains
+    # (round 6, C11_r6_2: results of `valid` carried a marker "already expanded" that survived the edit)
+    back = []
+    for _ in range(12 if depth == 'quick' else 120):
+        first = [cats[i] for i in rng.sample(range(37), rng.randint(1, 3))]
+        v = call(lambda: TC.valid(include=first))
+        if 'ok' not in v:
+            continue
+        v = v['ok']
+        extra = cats[rng.randrange(37)]
+        how = rng.choice(['add', 'ior', 'update', 'discard'])
+        try:
+            if how == 'add':
+                v.add(extra)
+            elif how == 'ior':
+                v |= {extra}
+            elif how == 'update':
+                v.update([extra])
+            else:
+                v.discard(extra)
+        except Exception:  # noqa
+            continue
+        idx = sorted(c.value - 1 for c in v)
+        got = call(lambda: canon(TC.valid(include=v)))
+        got_m = call(lambda: canon(M.valid(include=v, exclude=None)))
+        back.append((got, got_m, idx, how))
+    resp_b = ctx.driver.ask([{'op': 'c11.valid', 'inc': {'k': 'set', 'v': idx}, 'exc': None} for _, _, idx, _ in back]) if back else []
+    for (got, got_m, idx, how), r in zip(back, resp_b):
+        inp = {'fn': 'valid', 'include': ['a result of valid(), edited in place by ' + how, [names[i] for i in idx]], 'exclude': None}
+        ctx.check(inp, _strip(got), {'ok': sorted(set(r['model']['ok']))} if 'ok' in r['model'] else r['model'], r['spec'], nontrivial=True,
+                  what='valid(include=<a selection handed out earlier and edited since>) is not include-with-descendants')
+        ctx.check({**inp, 'fn': 'mapper.valid'}, _strip(got_m), {'ok': sorted(set(r['model']['ok']))} if 'ok' in r['model'] else r['model'], r['spec'], nontrivial=True,
+                  what='mapper valid(include=<a selection handed out earlier and edited since>) is not include-with-descendants')
 
     # ---- argument objects reused and edited in place between calls (same size, other contents): every call answers for the contents it is given
     pending = []
